@@ -328,6 +328,13 @@ structure SessionParamReqDetails where
   Outgoing : Option SessionParameters
   deriving DecidableEq, Repr, Inhabited
 
+/-- `client.pendingQueue` -/
+structure PendingQueue where
+  Ops : Map Nat PendingOp
+  Election : Option ElectionReqDetails
+  SessionParams : Option SessionParamReqDetails
+  deriving Repr, Inhabited
+
 /-- `client.OpDetailsResults` -/
 structure OpDetailsResults where
   Type_ : Nat
@@ -376,6 +383,10 @@ inductive Eff where
   | getRIB (ni : String) (filter : List Nat)
   | addEntry (ni : String) (op : Option AFTOperation)
   | deleteEntry (ni : String) (op : Option AFTOperation)
+  /-- the client's `addSendErr(err)` -/
+  | addSendErr (e : Option Status)
+  /-- the client's `q(m)`: the request is handed to the sender goroutine -/
+  | clientq (m : Option ModifyRequestC)
   deriving DecidableEq, Repr, Inhabited
 
 /-- outcome of one iteration of the Modify receive loop: the RPC ends with this error (`none` =
